@@ -220,6 +220,12 @@ def main(argv=None):
 
     brief = ", ".join(f"{k}={v}" for k, v in sorted(counters.items())[:12])
     if violations:
+        groups = {}
+        for r, v in violations:
+            key = (v.get("monitor"), v.get("mechanism"))
+            groups[key] = groups.get(key, 0) + 1
+        for (mname, mech), cnt in sorted(groups.items(), key=lambda kv: -kv[1])[:25]:
+            print(f"  {cnt:5d} x monitor={mname} mechanism={mech}")
         for r, v in violations[:5]:
             print(f"  violation case={r['idx']} monitor={v.get('monitor')} {v.get('msg', '')[:300]}")
         for p in replay_paths[:20]:
